@@ -99,7 +99,7 @@ def reg_txt(r):
 
 
 def op_pid(op):
-    return None if op[0] == "Reserve" else (op[1], op[2])
+    return None if op[0] in ("Reserve", "ResetMem") else (op[1], op[2])
 
 
 class World:
@@ -117,6 +117,8 @@ class World:
         self.recent_free = {}       # nd -> physical ids released lately (generation bias only)
         self.last_model_ops = []
         self.anomalies = []
+        self.expected_reg = set()   # (nd, app) whose shared memory the manager should hold
+        self.stopping = {}          # (nd, app) -> its physical qubits when the stepped stop began
 
     def ctrl(self, nd):
         if nd not in self.ctrls:
@@ -164,6 +166,20 @@ class World:
     def _advance(self, label):
         """run the suspended subroutine to its next yield point (inside a gate) or to its end"""
         sub = self.live[label]
+        if sub.get("stop"):
+            # a StopAppMessage handled step by step: one resumption = up to the next yield of
+            # stop_application (the base _clear_phys_qubit_in_memory yields once per released qubit)
+            self.last_model_ops = []
+            try:
+                next(sub["gen"])
+            except StopIteration:
+                del self.live[label]
+                self.stopping.pop((sub["nd"], sub["app"]), None)
+            except BaseException:
+                del self.live[label]
+                self.stopping.pop((sub["nd"], sub["app"]), None)
+                raise
+            return
         j = sub["next"]
         blocks = sub["blocks"]
         setq = ("SetReg", sub["nd"], sub["app"], YIELD_REG, 0)
@@ -214,6 +230,20 @@ class World:
                 g = self.ctrl(nd).handle_netqasm_message(self.msg_id, M.SubroutineMessage(sub))
                 self.live[label] = dict(gen=g, nd=nd, app=app, blocks=list(blocks), next=0)
                 self._advance(label)
+            elif kind == "StopStart":
+                _, nd, app, label = op
+                um = ex._qubit_unit_modules.get(app)
+                self.msg_id += 1
+                g = self.ctrl(nd).handle_netqasm_message(self.msg_id, M.StopAppMessage(app))
+                self.live[label] = dict(gen=g, nd=nd, app=app, stop=True)
+                if um is not None:
+                    self.stopping[(nd, app)] = {(nd, p) for p in um if p is not None}
+                    self.registered.discard((nd, app))
+                    self.expected_reg.discard((nd, app))
+                self._advance(label)
+            elif kind == "ResetMem":
+                self.m["shared_memory"].SharedMemoryManager.reset_memories()
+                self.expected_reg = set()
             elif kind == "Step":
                 self._advance(op[3])
             elif kind == "Reserve":
@@ -258,8 +288,10 @@ class World:
         self._note_free(op[1], used_before)
         if kind == "Init":
             self.registered.add((op[1], op[2]))
+            self.expected_reg.add((op[1], op[2]))
         elif kind == "Stop":
             self.registered.discard((op[1], op[2]))
+            self.expected_reg.discard((op[1], op[2]))
         return 0
 
     # ------------------------------------------------------------------ observing
@@ -311,17 +343,25 @@ class World:
         if len(img) != len(set(img)):
             dup = sorted(x for x in set(img) if img.count(x) > 1)
             bad.append(f"two allocated virtual qubits map to the same physical qubit {dup}")
+        releasing = set().union(*self.stopping.values()) if self.stopping else set()
         if contract_ok:
-            if set(after["used"]) != set(img) | self.reserved:
+            extra = set(after["used"]) - set(img) - self.reserved
+            missing = (set(img) | self.reserved) - set(after["used"])
+            # while a stop is suspended at a yield its not yet released qubits are still marked
+            if missing or not extra <= releasing:
                 bad.append(f"marked in use {after['used']} != mapped {sorted(set(img))} + reserved in flight "
-                           f"{sorted(self.reserved)}")
+                           f"{sorted(self.reserved)}" + (f" (+ being released {sorted(releasing)})" if releasing else ""))
         for nd, ks in after["keysets"].items():
-            if not (ks["um"] == ks["regs"] == ks["arrs"] == ks["shm"] == ks["active"]):
+            halted = {a for (n, a) in self.stopping if n == nd}      # stop in progress: partly cleared by design
+            sets = [ks[x] - halted for x in ("um", "regs", "arrs", "shm", "active")]
+            if not all(x == sets[0] for x in sets):
                 bad.append(f"per-application state of node {nd} is not keyed consistently: "
                            + str({k: sorted(v) for k, v in ks.items()}))
-            reg = {a for (n, a) in after["shreg"] if n == nd}
-            if reg != ks["um"]:
-                bad.append(f"shared memories held by the manager for node {nd} {sorted(reg)} != registered apps {sorted(ks['um'])}")
+            reg = {a for (n, a) in after["shreg"] if n == nd} - halted
+            exp = {a for (n, a) in self.expected_reg if n == nd}
+            if reg != exp:
+                bad.append(f"shared memories held by the manager for node {nd} {sorted(reg)} != those of the applications "
+                           f"registered since the last reset {sorted(exp)}")
             if {(nd, a) for a in ks["um"]} != {k for k in self.registered if k[0] == nd}:
                 bad.append(f"registered applications of node {nd} {sorted(ks['um'])} != lifecycle "
                            f"{sorted(k[1] for k in self.registered if k[0] == nd)}")
@@ -337,6 +377,9 @@ class World:
         if [x for x in before["used"] if x[0] != nd] != [x for x in after["used"] if x[0] != nd]:
             bad.append(f"operation on node {nd} changed the in-use set of another node")
         # lifecycle
+        if op[0] == "Init" and me in before["apps"] and (out == 0 or after["apps"].get(me) != before["apps"][me]):
+            bad.append(f"registering application id {me} that IS registered was accepted or changed its state "
+                       f"(outcome {out}): {before['apps'][me]} -> {after['apps'].get(me)}")
         if op[0] == "Init" and me not in before["apps"] and out != 0:
             bad.append(f"registering application id {me} that is not registered failed (outcome {out})")
         if op[0] == "Stop" and me in before["apps"]:
@@ -400,6 +443,8 @@ def coq_op(op):
         return f"(RetArr {z(op[1])} {z(op[2])} {z(op[3])})"
     if k == "Reserve":
         return f"(Reserve {z(op[1])})"
+    if k == "ResetMem":
+        return "ResetMem"
     if k == "Keep":
         return f"(Keep {z(op[1])} {z(op[2])} {z(op[3])} {z(op[4])} {z(op[5])} {lst(z(x) for x in op[6])})"
     raise AssertionError(op)
